@@ -145,6 +145,10 @@ func biasDriver(prop, focus string, nb func(c *caseCtx) int, tweak func(c *caseC
 		if method == "choquetIntegral" {
 			o.maxCrit = 5
 		}
+		if (prop == "C15" || prop == "C16") && method != "choquetIntegral" && c.rng.Intn(6) == 0 {
+			// 7..12 criteria: with ratios j/n and decimal ratios the product n x ratio meets its integer from both sides
+			o.minCrit, o.maxCrit = 7, 12
+		}
 		if (prop == "C15" || prop == "C16") && c.rng.Intn(8) == 0 {
 			// importances that are distinct but closer than any "reasonable" epsilon, in no particular order
 			o.nearTiedW, o.minCrit = true, 3
